@@ -22,7 +22,7 @@ CHECKS = {
             TB + "Declined: 'eventually' (liveness) and end-of-run capacity counts. F1 is a recorded known finding."),
     "C03": ("Life-cycle typestate with callback roles: at every suspension/user step the id is in exactly one registry; cancel callback begun exactly once iff the coroutine left by "
             "cancellation, while filed as cancelled, before the end callback; end callback exactly once while filed as ended, slot already released, with the task id; "
-            "registry transition who-may table; callback role wiring through every hop; execute_optional awaits coroutine callbacks.",
+            "registry transition who-may table; callback role wiring through every hop; execute_optional awaits coroutine callbacks; WHAT(Task.cancel): every receiver is an entry of the running registry or a spawner, also when looked up through a combined view of registries.",
             "typestate abstract interpretation (roles END/CANCEL/ID propagated through call bindings) + wiring + who-may tables", "5 C03",
             TB + "Declined: the counter identity as arithmetic (follows from the transition table). F1 shared."),
     "C04": ("Per-iteration typestate of _apply_spawner/_start_num (exactly one func(*args, **kwargs) per iteration, handed to exactly one completed _start_task, raising call skipped, "
@@ -79,7 +79,7 @@ CHECKS = {
             TB + "Declined: the bytes on the wire; help text for every width (argparse run-time behaviour). F6 is a recorded known finding."),
     "C17": ("Dispatch structure of _exec_method_and_respond (self, positional kinds in signature order, *args after, rest by keyword, through return_or_exception), RESULT-USED at all "
             "three return_or_exception call sites with the reply forms ok-if-None-else-str / str, add_function_arg mapping incl. the bool-defaults-to-False table over the pool classes, "
-            "return_or_exception semantics (called once, awaited under the coroutine guard, Exception returned, nothing but cancellation escapes - call and await); TOKENS (what reaches parse_args is the line split at blanks, words unchanged); annotation table shared (F6).",
+            "return_or_exception semantics (called once, awaited under the coroutine guard, Exception returned, nothing but cancellation escapes - call and await); TOKENS (what reaches parse_args is the line split at blanks, words unchanged); OK-CONSTANT (the reply for a None result is the decoded module constant whose value is the text 'ok'); OMIT-SELF (the omitted-parameter default names the receiver and nothing else); annotation table shared (F6).",
             "syntax-directed structure rules + RESULT-USED data-flow + path counting", "5 C17",
             TB + "Declined: equality of effects for every argument value (translation over run-time values). F6 shared (known finding)."),
     "C18": ("HATCHES (all four argparse escape hatches overridden, no print/sys.std*/exit in parser, session, server; positive control in client), per-iteration protocol of listen by "
